@@ -56,7 +56,7 @@ if confirmed:
     try:
         for p in props:
             t0 = time.time()
-            c = sh(f'cd {ROOT} && ./check {p} --tier quick')
+            c = sh(f'cd {ROOT} && timeout 2400 ./check {p} --tier quick')
             lines = [l for l in c.stdout.split('\n') if l.startswith(('VIOLATION', 'OK', 'KNOWN', '#'))]
             viol = [l for l in lines if l.startswith('VIOLATION')]
             res = {'check': p, 'exit': c.returncode, 'violation_lines': viol[:4], 'detail': [l for l in lines if l.startswith('#')][:3],
